@@ -9,7 +9,7 @@ use crate::Args;
 use amiquip::verif::{ClientMsg, CoreProbe, Item, ProbeEvent, Rd, Recv, Wr};
 use amiquip::{Confirm, ConnectionBlockedNotification, ConsumerMessage, Return};
 use crossbeam_channel::{Receiver, Sender, TryRecvError};
-use std::collections::HashMap;
+use std::collections::{BTreeMap, HashMap};
 use std::panic::{catch_unwind, AssertUnwindSafe};
 
 enum QEnd {
@@ -34,8 +34,10 @@ pub struct World {
     probe: CoreProbe,
     pub max: u16,
     pub bound: usize,
-    queues: Vec<QEnd>,
-    pending_cons: HashMap<(u16, String), usize>,
+    queues: BTreeMap<usize, QEnd>,
+    next_q: usize,
+    /// reply queue id -> consumer queues received on it so far
+    cons_count: HashMap<usize, usize>,
     /// channel -> qid of the reply queue of the handle the client holds
     pub handle_q: HashMap<u16, usize>,
     /// channel -> qid of the reply queue created with the slot (handle maybe not received yet)
@@ -47,6 +49,9 @@ pub struct World {
     pub stats: Vec<String>,
     pub consumer_qs: Vec<usize>,
     pub listener_qs: Vec<(usize, u8)>,
+    pub torn: bool,
+    /// queue id -> addressee term, for the property oracles
+    pub aux: Vec<(usize, String)>,
 }
 
 fn msg_coq(m: &str, payload: String) -> String {
@@ -59,8 +64,9 @@ impl World {
             probe: CoreProbe::new(max, bound).unwrap(),
             max,
             bound,
-            queues: vec![QEnd::Reply(0), QEnd::AllocRep],
-            pending_cons: HashMap::new(),
+            queues: vec![(0, QEnd::Reply(0)), (1, QEnd::AllocRep)].into_iter().collect(),
+            next_q: 2,
+            cons_count: HashMap::new(),
             handle_q: HashMap::new(),
             slot_q: HashMap::new(),
             ops: Vec::new(),
@@ -70,6 +76,8 @@ impl World {
             stats: Vec::new(),
             consumer_qs: Vec::new(),
             listener_qs: Vec::new(),
+            torn: false,
+            aux: vec![],
         }
     }
 
@@ -87,7 +95,7 @@ impl World {
     }
 
     fn record(&mut self, op: String, ob: String) {
-        let d = if self.dead { "(9, 0, 0, false, [])".to_string() } else { self.digest() };
+        let d = if self.dead || self.torn { "(9, 0, 0, false, [])".to_string() } else { self.digest() };
         self.ops.push(op);
         self.obs.push(format!("({}, {})", ob, d));
     }
@@ -113,47 +121,22 @@ impl World {
         }
     }
 
-    fn note_creations_after_frames(&mut self, frames: &[FR], ok: bool) {
-        // a consumer queue is created whenever a ConsumeOk was accepted; the driver only
-        // needs the numbering while things go well (see DESIGN: after an error nothing
-        // is created any more)
-        if !ok {
-            return;
-        }
-        for f in frames {
-            if let FR::Method(ch, SM::ConsumeOk(tag)) = f {
-                if *ch != 0 {
-                    let q = self.queues.len();
-                    self.queues.push(QEnd::Consumer(None));
-                    self.pending_cons.insert((*ch, tag.clone()), q);
-                    self.consumer_qs.push(q);
-                }
-            }
-        }
-    }
-
     pub fn frame(&mut self, f: &FR) {
-        if self.dead {
+        if self.dead || self.torn {
             return;
         }
-        let before_err = self.errored;
         let amqp = f.to_amqp();
         let r = catch_unwind(AssertUnwindSafe(|| (self.probe.frame(amqp), Vec::new())));
-        let ok = matches!(&r, Ok((Ok(()), _)));
         let ob = self.outcome(r);
-        if !before_err {
-            self.note_creations_after_frames(std::slice::from_ref(f), ok);
-        }
         self.record(format!("OFrame {}", f.to_coq()), ob);
     }
 
     /// a STREAM event: optional write oracle, optional read episode (frames as bytes,
     /// cut into chunks at `cuts`, ended by `term`)
     pub fn stream(&mut self, write: Option<Vec<Wr>>, read: Option<(Vec<FR>, Term)>, rng: &mut Rng) {
-        if self.dead {
+        if self.dead || self.torn {
             return;
         }
-        let before_err = self.errored;
         let wcoq = match &write {
             None => "None".to_string(),
             Some(ws) => format!(
@@ -165,8 +148,8 @@ impl World {
                 })
             ),
         };
-        let (rcoq, reads, frames) = match &read {
-            None => ("None".to_string(), None, vec![]),
+        let (rcoq, reads) = match &read {
+            None => ("None".to_string(), None),
             Some((fs, term)) => {
                 let mut bytes: Vec<u8> = Vec::new();
                 for f in fs {
@@ -197,24 +180,17 @@ impl World {
                 (
                     format!("(Some ({}, {}))", coqfmt::list(fs, |f| f.to_coq()), t),
                     Some(script),
-                    fs.clone(),
                 )
             }
         };
         let ev = ProbeEvent::Stream { write, read: reads };
         let r = catch_unwind(AssertUnwindSafe(|| self.probe.event(ev)));
-        let ok = matches!(&r, Ok((Ok(()), _)));
         let ob = self.outcome(r);
-        if !before_err {
-            // creations happen for the frames processed before a failure too, but then
-            // the numbering no longer matters
-            self.note_creations_after_frames(&frames, ok);
-        }
         self.record(format!("OEvent (EvStream {} {})", wcoq, rcoq), ob);
     }
 
     pub fn event_chan(&mut self, n: u16) {
-        if self.dead {
+        if self.dead || self.torn {
             return;
         }
         let r = catch_unwind(AssertUnwindSafe(|| self.probe.event(ProbeEvent::Chan(n))));
@@ -223,7 +199,7 @@ impl World {
     }
 
     pub fn event_set_blocked(&mut self) {
-        if self.dead {
+        if self.dead || self.torn {
             return;
         }
         let r = catch_unwind(AssertUnwindSafe(|| self.probe.event(ProbeEvent::SetBlocked)));
@@ -232,7 +208,7 @@ impl World {
     }
 
     pub fn event_alloc(&mut self) {
-        if self.dead {
+        if self.dead || self.torn {
             return;
         }
         let before: Vec<u16> = self.probe.slot_ids();
@@ -242,9 +218,11 @@ impl World {
             let after = self.probe.slot_ids();
             for id in after {
                 if !before.contains(&id) {
-                    let q = self.queues.len();
-                    self.queues.push(QEnd::Reply(id));
+                    let q = self.next_q;
+                    self.next_q += 1;
+                    self.queues.insert(q, QEnd::Reply(id));
                     self.slot_q.insert(id, q);
+                    self.aux.push((q, format!("AGetter {}", id)));
                 }
             }
         }
@@ -252,7 +230,7 @@ impl World {
     }
 
     pub fn is_done(&mut self) {
-        if self.dead {
+        if self.dead || self.torn {
             return;
         }
         let r = catch_unwind(AssertUnwindSafe(|| self.probe.is_done()));
@@ -289,8 +267,8 @@ impl World {
         }
         let qc = coqfmt::opt(&q, |x| x.to_string());
         let (m, msg) = if kind == 0 {
-            let tx = q.and_then(|q| match &mut self.queues[q] {
-                QEnd::Return(_, tx) => tx.take(),
+            let tx = q.and_then(|q| match self.queues.get_mut(&q) {
+                Some(QEnd::Return(_, tx)) => tx.take(),
                 _ => None,
             });
             if q.is_some() && tx.is_none() {
@@ -298,8 +276,8 @@ impl World {
             }
             (format!("(MsgSetReturn {})", qc), ClientMsg::SetReturn(tx))
         } else {
-            let tx = q.and_then(|q| match &mut self.queues[q] {
-                QEnd::Confirm(_, tx) => tx.take(),
+            let tx = q.and_then(|q| match self.queues.get_mut(&q) {
+                Some(QEnd::Confirm(_, tx)) => tx.take(),
                 _ => None,
             });
             if q.is_some() && tx.is_none() {
@@ -308,6 +286,10 @@ impl World {
             (format!("(MsgSetConfirm {})", qc), ClientMsg::SetConfirm(tx))
         };
         let ok = self.probe.cl_send(ch, msg);
+        if let (true, Some(q)) = (ok, q) {
+            self.aux.retain(|(q2, _)| *q2 != q);
+            self.aux.push((q, format!("{} {}", if kind == 0 { "AReturn" } else { "AConfirm" }, ch)));
+        }
         self.record(format!("OClSend {} {}", ch, m), format!("BSent {}", coqfmt::b(ok)));
     }
 
@@ -324,9 +306,11 @@ impl World {
 
     pub fn cl_set_blocked(&mut self) -> usize {
         let (tx, rx) = crossbeam_channel::unbounded();
-        let q = self.queues.len();
-        self.queues.push(QEnd::Blocked(Some(rx)));
+        let q = self.next_q;
+        self.next_q += 1;
+        self.queues.insert(q, QEnd::Blocked(Some(rx)));
         self.listener_qs.push((q, 2));
+        self.aux.push((q, "ABlocked".into()));
         if self.dead {
             return q;
         }
@@ -337,13 +321,14 @@ impl World {
 
     /// kind 0: return listener queue, 1: confirm listener queue
     pub fn cl_new_q(&mut self, kind: u8) -> usize {
-        let q = self.queues.len();
+        let q = self.next_q;
+        self.next_q += 1;
         if kind == 0 {
             let (tx, rx) = crossbeam_channel::unbounded();
-            self.queues.push(QEnd::Return(Some(rx), Some(tx)));
+            self.queues.insert(q, QEnd::Return(Some(rx), Some(tx)));
         } else {
             let (tx, rx) = crossbeam_channel::unbounded();
-            self.queues.push(QEnd::Confirm(Some(rx), Some(tx)));
+            self.queues.insert(q, QEnd::Confirm(Some(rx), Some(tx)));
         }
         self.listener_qs.push((q, kind));
         if !self.dead {
@@ -352,14 +337,17 @@ impl World {
         q
     }
 
-    fn item_coq(&mut self, ch_hint: u16, it: Item) -> String {
+    fn item_coq(&mut self, ch_hint: u16, from_q: usize, it: Item) -> String {
         match it {
             Item::ReplyMethod(c) => format!("(IReplyMethod {})", class_to_coq(&c)),
             Item::ReplyConsumeOk(tag, rx) => {
-                let q = self.pending_cons.remove(&(ch_hint, tag.clone())).unwrap_or(9999);
-                if q < self.queues.len() {
-                    self.queues[q] = QEnd::Consumer(Some(rx));
-                }
+                // the name the model gives the queue: reply queue id and a per-slot counter
+                let k = self.cons_count.entry(from_q).or_insert(0);
+                let q = (1usize << 32) + from_q * (1 << 20) + *k;
+                *k += 1;
+                self.queues.insert(q, QEnd::Consumer(Some(rx)));
+                self.consumer_qs.push(q);
+                self.aux.push((q, format!("AConsumer {} {}", ch_hint, coqfmt::string(&tag))));
                 format!("(IReplyConsumeOk {} {})", coqfmt::string(&tag), q)
             }
             Item::ReplyGet(None) => "(IReplyGet None)".into(),
@@ -384,8 +372,8 @@ impl World {
             Item::AllocOk(id) => {
                 if let Some(q) = self.slot_q.get(&id).cloned() {
                     if let Some(old) = self.handle_q.insert(id, q) {
-                        if old != q && old < self.queues.len() {
-                            self.queues[old] = QEnd::Gone;
+                        if old != q {
+                            self.queues.insert(old, QEnd::Gone);
                         }
                     }
                 }
@@ -397,7 +385,7 @@ impl World {
 
     /// try_recv on queue q; returns true if an item was received
     pub fn cl_recv(&mut self, q: usize) -> bool {
-        if self.dead || q >= self.queues.len() {
+        if self.dead || !self.queues.contains_key(&q) {
             return false;
         }
         fn conv<T>(r: Result<T, TryRecvError>, f: impl FnOnce(T) -> Item) -> Recv {
@@ -408,7 +396,7 @@ impl World {
             }
         }
         let mut ch_hint = 0;
-        let r = match &self.queues[q] {
+        let r = match &self.queues[&q] {
             QEnd::Reply(ch) => {
                 ch_hint = *ch;
                 if *ch != 0 && self.handle_q.get(ch) != Some(&q) {
@@ -424,7 +412,7 @@ impl World {
             _ => return false,
         };
         let (ob, got) = match r {
-            Recv::Item(it) => (format!("BRecv (RItem {})", self.item_coq(ch_hint, it)), true),
+            Recv::Item(it) => (format!("BRecv (RItem {})", self.item_coq(ch_hint, q, it)), true),
             Recv::Empty => ("BRecv REmpty".to_string(), false),
             Recv::Disconnected => ("BRecv RDisc".to_string(), false),
         };
@@ -433,10 +421,10 @@ impl World {
     }
 
     pub fn cl_drop_rx(&mut self, q: usize) {
-        if self.dead || q >= self.queues.len() {
+        if self.dead || !self.queues.contains_key(&q) {
             return;
         }
-        match &mut self.queues[q] {
+        match self.queues.get_mut(&q).unwrap() {
             QEnd::Consumer(rx @ Some(_)) => *rx = None,
             QEnd::Return(rx @ Some(_), _) => *rx = None,
             QEnd::Confirm(rx @ Some(_), _) => *rx = None,
@@ -455,16 +443,16 @@ impl World {
         }
         self.probe.cl_drop_handle(ch);
         if ch == 0 {
-            self.queues[0] = QEnd::Gone;
-            self.queues[1] = QEnd::Gone;
+            self.queues.insert(0, QEnd::Gone);
+            self.queues.insert(1, QEnd::Gone);
         } else if let Some(q) = self.handle_q.remove(&ch) {
-            self.queues[q] = QEnd::Gone;
+            self.queues.insert(q, QEnd::Gone);
         }
         self.record(format!("OClDropHandle {}", ch), "BUnit".into());
     }
 
     pub fn teardown(&mut self) {
-        if self.dead {
+        if self.dead || self.torn {
             return;
         }
         self.probe.teardown();
@@ -475,13 +463,20 @@ impl World {
 
     /// receive everything that can still be received, from every queue
     pub fn drain_all(&mut self) {
-        for q in 0..self.queues.len() {
-            for _ in 0..200 {
+        // twice: consumer queues appear while reply queues are drained
+        let mut qs: Vec<usize> = self.queues.keys().cloned().collect();
+        qs.extend(self.queues.keys().cloned().collect::<Vec<_>>());
+        for _round in 0..2 {
+            qs = self.queues.keys().cloned().collect();
+            for q in qs.clone() {
+              for _ in 0..200 {
                 if !self.cl_recv(q) {
                     break;
                 }
+              }
             }
         }
+        let _ = qs;
     }
 
     pub fn method_bytes(&mut self, ch: u16, m: &SM) -> Vec<u8> {
@@ -490,6 +485,47 @@ impl World {
     }
 
     pub fn open_slot_ids(&self) -> Vec<u16> {
+        if self.dead || self.torn {
+            return vec![];
+        }
         self.probe.slot_ids()
     }
+
+    pub fn peek_out(&mut self) {
+        if self.dead || self.torn {
+            return;
+        }
+        let ob = self.probe.outbuf();
+        self.record("OPeekOut".into(), format!("BBytes {}", wrap(coqfmt::bytes_rle(&ob))));
+    }
+
+    pub fn phase(&self) -> u8 {
+        if self.dead || self.torn {
+            return 9;
+        }
+        self.probe.phase().0
+    }
+
+    pub fn outbuf_len(&self) -> usize {
+        if self.dead || self.torn {
+            return 0;
+        }
+        self.probe.outbuf().len()
+    }
+
+    pub fn queue_ids(&self) -> Vec<usize> {
+        self.queues.keys().cloned().collect()
+    }
+
+    pub fn case_term(&self) -> String {
+        format!(
+            "({}, {}, [{}], [{}], {})",
+            self.max,
+            self.bound,
+            self.ops.join("; "),
+            self.obs.join("; "),
+            coqfmt::list(&self.aux, |(q, a)| format!("({}, {})", q, a))
+        )
+    }
 }
+
